@@ -60,4 +60,33 @@ def register(g):
         lines.append('end Rj.Generated')
         write('Defaults.lean', '\n'.join(lines) + '\n')
 
-    return {'defaults': defaults}
+    def skeletons():
+        import re as _re
+        mb = strip_comments(read('src/memory_bound_channel.rs'))
+        send = fn_body(mb, 'send') or ''
+        recv = fn_body(mb, 'recv') or ''
+        tryr = fn_body(mb, 'try_recv') or ''
+        i_add = send.find('fetch_add(memory_usage')
+        m_if = _re.search(r'if\s+(old_usage|new_usage|\w+)\s*(>=|>)\s*self\.memory_capacity', send)
+        m_spin = _re.search(r'while\s+self\.channel_memory_usage\.load\([^)]*\)\s*(-\s*memory_usage)?\s*(>=|>)\s*self\.memory_capacity', send)
+        i_send = send.find('self.inner.send((msg, memory_usage))')
+        old_is_prev = _re.search(r'let\s+old_usage\s*=\s*self\.channel_memory_usage\.fetch_add\(memory_usage', send) is not None
+        f = dict(
+            countBeforeBlock=i_add >= 0 and m_if is not None and i_add < m_if.start(),
+            admitComparesOld=m_if is not None and m_if.group(1) == 'old_usage' and old_is_prev,
+            admitStrict=m_if is not None and m_if.group(2) == '>',
+            spinSubtractsOwn=m_spin is not None and m_spin.group(1) is not None,
+            spinStrict=m_spin is not None and m_spin.group(2) == '>',
+            sendAfterWait=i_send >= 0 and m_spin is not None and i_send > m_spin.start(),
+            recvReleases='fetch_sub(memory_usage' in recv and recv.find('self.inner.recv()') < recv.find('fetch_sub(memory_usage'),
+            tryRecvReleases='fetch_sub(memory_usage' in tryr and tryr.find('self.inner.try_recv()') < tryr.find('fetch_sub(memory_usage'))
+        for k, v in f.items():
+            if not v:
+                status['channel:' + k] = 'not recognised / differs from the reference protocol'
+        b = lambda x: 'true' if x else 'false'
+        lines = ['import RjModel.Model.Channel', 'namespace Rj.Generated',
+                 'def channelFeatures : ChanFeatures := ⟨' + ', '.join(b(f[k]) for k in ('countBeforeBlock', 'admitComparesOld', 'admitStrict', 'spinSubtractsOwn', 'spinStrict', 'sendAfterWait', 'recvReleases', 'tryRecvReleases')) + '⟩',
+                 'end Rj.Generated']
+        write('Skeletons.lean', '\n'.join(lines) + '\n')
+
+    return {'defaults': defaults, 'skeletons': skeletons}
